@@ -252,6 +252,17 @@ def vf4(ctx, c):
     ok = bool(mism) and all(g.only_raises_after(t, True) for t in mism)
     c.check(ok, "open_virtual_file:kind-mismatch", "an existing file of another kind raises", "no raise on kind mismatch",
             "open_virtual_file does not refuse an existing target whose content is of a different container kind than requested", where)
+    # a truthiness test on the requested kind is only sound if no kind is falsy (plain Enum members are always truthy)
+    for t_ in [g.nodes[m_][2] for m_ in mism]:
+        vals = t_.values if isinstance(t_, ast.BoolOp) else [t_]
+        if any(U(v) == "self.virtual_file_type" for v in vals) and repo.has_cls("VirtualFileType"):
+            E = repo.cls("VirtualFileType")
+            plain = [b.split(".")[-1] for b in E.bases] == ["Enum"]
+            zero = sorted(k for k, v in E.assigns.items() if try_fold(v) in (0, "", None, False))
+            used_zero = [k for k in zero if k in KINDS]
+            c.check(plain or not used_zero, "open_virtual_file:kind-truthiness", "every container kind is truthy", "VirtualFileType(%s) has falsy member(s) %s" % (",".join(E.bases), used_zero),
+                    "open_virtual_file tests `self.virtual_file_type and ...`; with VirtualFileType derived from %s the member(s) %s are falsy, so the kind-mismatch refusal is skipped for them"
+                    % (",".join(E.bases), used_zero), where)
     if mism:
         t = g.nodes[mism[0]][2]
         form = isinstance(t, ast.BoolOp) and isinstance(t.op, ast.And) and len(t.values) == 2 and U(t.values[0]) == "self.virtual_file_type" and \
@@ -512,4 +523,59 @@ def cli3(ctx, c):
                     "file_util's error handler does not report the failure with a non-zero exit", repo.loc(fn, h))
 
 
-RULES = {"VF-1": vf1, "VF-2": vf2, "VF-3": vf3, "VF-4": vf4, "CLI-1": cli1, "CLI-3": cli3}
+READERS = {"CassetteFile": ("list_files", "read_file", "read_blocks", "read_coco_file_name", "skip_to_sequence"),
+           "DiskFile": ("list_files", "read_data", "read_sequence", "validate_sequence", "calculate_file_length", "seek_granule", "granule_in_use", "directory_entry_in_use",
+                        "find_empty_granule", "find_empty_directory_entry"),
+           "BinaryFile": ("list_files",), "VirtualFileContainer": ("read_word", "get_buffer"), "VirtualFile": ("list_files", "get_coco_files")}
+
+
+def vf8(ctx, c):
+    """VF-8 listing an image has no effect on the container (no cached results, no stores), and lets validation errors propagate (sniffing depends on them)."""
+    repo = ctx.repo
+    n = 0
+    for cls, meths in READERS.items():
+        if not repo.has_cls(cls):
+            continue
+        C = repo.cls(cls)
+        for mname in meths:
+            f = C.methods.get(mname)
+            if f is None:
+                continue
+            n += 1
+            site = "%s.%s" % (cls, mname)
+            bad = []
+            for x in ast.walk(f.node):
+                tg = []
+                if isinstance(x, ast.Assign):
+                    tg = x.targets
+                elif isinstance(x, (ast.AugAssign, ast.AnnAssign)):
+                    tg = [x.target]
+                for t in tg:
+                    for e in (t.elts if isinstance(t, (ast.Tuple, ast.List)) else [t]):
+                        r = e
+                        while isinstance(r, (ast.Attribute, ast.Subscript)):
+                            r = r.value
+                        if isinstance(e, (ast.Attribute, ast.Subscript)) and isinstance(r, ast.Name) and r.id in ("self", "cls"):
+                            bad.append(x)
+                if isinstance(x, ast.Call) and isinstance(x.func, ast.Attribute) and U(x.func.value).startswith("self.") and \
+                        x.func.attr in ("append", "extend", "insert", "pop", "remove", "clear", "update", "setdefault", "add"):
+                    bad.append(x)
+            if bad:
+                c.finding(site, "stores into the container: %s" % U(bad[0])[:50],
+                          "%s.%s, a reader, modifies the container (%s): results cached or state changed while listing go stale when files are added, and differ between first and later calls"
+                          % (cls, mname, U(bad[0])[:70]), repo.loc(f, bad[0]))
+            else:
+                c.ok(site, "no store to the container", repo.loc(f, f.node))
+            for x in ast.walk(f.node):
+                if isinstance(x, ast.Try):
+                    for h in x.handlers:
+                        names = ["bare"] if h.type is None else [U(e).split(".")[-1] for e in (h.type.elts if isinstance(h.type, ast.Tuple) else [h.type])]
+                        reraises = any(isinstance(y, ast.Raise) for y in ast.walk(h))
+                        if not reraises and any(nm in ("bare", "Exception", "BaseException", "VirtualFileValidationError") for nm in names) and cls in ("CassetteFile", "DiskFile"):
+                            c.finding(site + ":handler", "validation errors swallowed (%s)" % ",".join(names),
+                                      "%s.%s catches %s and carries on: get_coco_files tells a disk from a cassette from raw bytes by these errors, so content of another kind is listed as this kind"
+                                      % (cls, mname, ",".join(names)), repo.loc(f, h))
+    c.floor("reader methods examined", n, 12)
+
+
+RULES = {"VF-8": vf8, "VF-1": vf1, "VF-2": vf2, "VF-3": vf3, "VF-4": vf4, "CLI-1": cli1, "CLI-3": cli3}
